@@ -12,12 +12,16 @@
    carrying the packed form of valid symbols, and doubles of 8 bytes (every value type: std_logic and bit scalars and vector
    elements, 8-bit enumerations, integers, reals; snapshot, cycle, directory and tailer sections); hence the time table is
    the strictly increasing list of accepted time stamps, and the storage theorems of C04 apply to each signal.
-   NOT proved: that the sequence of dispatches reports each vector exactly once per time step with its final value (the
-   schedule: is_second_change / full_signal_has_changed / change list), that the history is the one the section bytes
-   encode in GHDL's sense, the hierarchy; those are decided by the correspondence run on signal sections and by the GHW
+   time_step_spec (Proofs/VecStepProofs.v), the schedule: over a whole time step - the per-bit records in file order, then
+   finish_time_step - an untouched vector hands the store nothing and keeps its symbols, every value handed over is the
+   vector's symbols at that moment, and the last value handed over for a touched vector is its final symbols, i.e. the
+   symbols obtained by writing the records in order (first declared element leftmost); afterwards no vector is marked as
+   changed.  vec_update_exact is the per-record description (is_second_change: a second, different write of an element
+   first hands over the value before it - a delta glitch stays visible; full_signal_has_changed: early hand-over).
+   NOT proved: that the history is the one the section bytes encode in GHDL's sense, the hierarchy; those are decided by the correspondence run on signal sections and by the GHW
    file generator (MANIFEST level_note). *)
-From WV Require Import Model.Base Model.Bits Model.WaveMem Model.Ghw Spec.TimeSpec Proofs.TimeTableProofs Proofs.BitsProofs Proofs.StoreProofs Proofs.RawProofs Proofs.VecProofs Proofs.GhwProofs.
-From Coq Require Import Sorted.
+From WV Require Import Model.Base Model.Bits Model.WaveMem Model.Ghw Spec.TimeSpec Proofs.TimeTableProofs Proofs.BitsProofs Proofs.StoreProofs Proofs.RawProofs Proofs.VecProofs Proofs.VecStepProofs Proofs.GhwProofs.
+From Coq Require Import Sorted List. Import ListNotations.
 Open Scope N_scope.
 
 Check compress_template_spec :
@@ -84,7 +88,41 @@ Check read_signals_time_table :
   read_signals lz_compress cap big_endian tpes sigs vectors input = Ok (Some (blocks, ttb)) ->
   exists ops, Forall ghw_op_ok ops /\ ttb = accepted (times_of ops) /\ StronglySorted N.lt ttb.
 
+
+(* the vector buffer over a whole time step *)
+Check time_step_spec :
+  forall (parse_f64 : list byte -> option (list byte)) (lz_compress : list byte -> list byte) (cap : N) (vecs0 : list vec_entry)
+         vb S e script vb1 e1 vb2 e2,
+  vecs0 = vb_vecs vb -> vbinv vb S -> vb_change_list vb = [] ->
+  (forall id v, nth_error (vb_vecs vb) id = Some v -> ve_signal_change v = false) ->
+  Forall (value_ok vecs0) script ->
+  run_updates vb e script = Ok (vb1, e1) -> finish_time_step vb1 e1 = Ok (vb2, e2) ->
+  let S2 := fold_left (apply_update vecs0) script S in
+  let touched := map (fun u : nat * nat * N => fst (fst u)) script in
+  exists T,
+    run_ops parse_f64 lz_compress cap e (ops_of_trace vecs0 T) = Ok e2 /\
+    vbinv vb2 S2 /\ vb_change_list vb2 = [] /\
+    (forall id v, nth_error (vb_vecs vb2) id = Some v -> ve_signal_change v = false) /\
+    (forall id syms, nth_error S2 id = Some syms -> In id touched -> last_opt (for_id id T) = Some syms) /\
+    (forall id, ~ In id touched -> for_id id T = [] /\ nth_error S2 id = nth_error S id).
+
+(* the vocabulary *)
+Check (eq_refl : ops_of_trace = fun vecs T =>
+  map (fun p : nat * list N => match nth_error vecs (fst p) with
+                | Some v => OpRaw (ve_ref v) (pk (ve_states v) (snd p)) (ve_states v)
+                | None => OpTime 0
+                end) T).
+Check (eq_refl : for_id = fun id T => map snd (filter (fun p : nat * list N => Nat.eqb (fst p) id) T)).
+Check (eq_refl : pk = fun st syms => write_n_state_loop st syms 0 None).
+Check (eq_refl : apply_update = fun vecs0 S u =>
+  let '(vid, si, value) := u in
+  match nth_error vecs0 vid, nth_error S vid with
+  | Some v, Some syms => list_update S vid (list_update syms (ve_bits v - 1 - (ve_max_index v - si)) value)
+  | _, _ => S
+  end).
+
 Print Assumptions ve_set_spec.
+Print Assumptions time_step_spec.
 Print Assumptions read_signals_ops.
 Print Assumptions read_signals_time_table.
 Print Assumptions vec_update_spec.
